@@ -27,7 +27,8 @@ FAMILIES = {
     "wcdm": (lambda x, a0, a1, a2: a0 * x ** 3 + a1 * x ** a2, lambda r: [r.uniform(0.05, 3000.0), r.uniform(0.05, 6000.0), r.uniform(-1.0, 2.0)]),
     "curved": (lambda x, a0, a1, a2: a0 * x ** 3 + a1 * x ** 2 + a2, lambda r: [r.uniform(0.05, 3000.0), r.uniform(0.0, 500.0), r.uniform(0.05, 6000.0)]),
 }
-ANALYTIC = ["a0*x**2", "a0*x**3", "a0", "a0*x", "a0*x**4", "a0*exp(a1*x)", "pow(x,a0)", "x**3", "x**2", "a0*(x+a1)**2"]
+ANALYTIC = ["a0*x**2", "a0*x**3", "a0", "a0*x", "a0*x**4", "a0*exp(a1*x)", "pow(x,a0)", "x**3", "x**2", "a0*(x+a1)**2",
+            "1", "x/x", "x"]     # H^2 = 1: the antiderivative is x itself, so the lambdified function returns its argument (aliasing)
 
 
 def make():
